@@ -463,8 +463,11 @@ class Script:
 
         # TODO here we use stubs instead of the actual values. We should use
         # the signatures from stubs, but the actual values, probably?!
-        return [classes.Signature(self._inference_state, signature, call_details)
-                for signature in definitions.get_signatures()]
+        # The values are a set, sort to get the same order in every process.
+        return helpers.sorted_definitions(
+            classes.Signature(self._inference_state, signature, call_details)
+            for signature in definitions.get_signatures()
+        )
 
     @validate_line_column
     def get_context(self, line=None, column=None):
